@@ -3,8 +3,8 @@
 NAME=$1; shift
 P=/verif/seeded/$NAME/patch.diff
 git -C /repo diff --quiet || { echo "/repo not clean"; exit 2; }
-git -C /repo apply $P || exit 2
-trap 'git -C /repo checkout -- . ; rm -f /verif/replays/*' EXIT
+touch /tmp/.seedstamp; git -C /repo apply $P || exit 2
+trap 'git -C /repo checkout -- . ; find /verif/replays -type f -newer /tmp/.seedstamp -delete' EXIT
 cd /verif
 for PROP in "$@"; do
   ./run.py $PROP --no-evidence > /tmp/seedrun_${NAME}_$PROP.log 2>&1
